@@ -217,6 +217,8 @@ class VTask(Task):
             return TaskResult.success(outputs=out)
         if kind == "terminal":
             return TaskResult.terminal("vf terminal")
+        if kind == "raise":
+            raise ValueError("vf permanent failure raised by the task body")
         if kind == "poll":
             polls = int(stage.context.get("polls_" + tname, 0))
             if polls < int(beh.get("n", 2)):
@@ -1003,6 +1005,7 @@ WORKLOADS: dict[str, Callable[[], Workflow]] = {
     "sidejump": wl_sidejump,
     "selfloop2_exact": lambda: wl_selfloop(2, max_jumps=2),
     "loop_skip": wl_loop_skip,
+    "raise1": lambda: workflow([stage("a", tasks={"t1": {"kind": "raise"}}), stage("b", ["a"])]),
     "two_roots_stop": lambda: wl_two_roots("stop"),
     "chain_policy": lambda: wl_two_roots("cont"),
     "skip_then_loop": wl_skip_then_loop,
